@@ -10,10 +10,19 @@ the real code:
 
   rect    RectangularFoV.inFieldOfView      (+ twins rotated about the vertical: boresight /
   conic   ConicFoV.inFieldOfView               target moved onto the north seam, real angles)
-  azmask, elmask   Radar.isVisible -> Sensor.isVisible (real sensor, all other constraints open)
+  azmask, elmask   Radar.isVisible -> Sensor.isVisible (real sensor, all other constraints open,
+                   masks handed to the Sensor object directly)
+  azmaskcfg, elmaskcfg   the same ranges stated in the PUBLIC configuration (RadarConfig /
+                   AdvRadarConfig / OpticalConfig -> sensorFactory), then isVisible of the built sensor
   los     lineOfSight(a, b) and lineOfSight(b, a)
   limb    checkSpaceSensorEarthLimbObscuration
   sun     calculateSunVizFraction  (in [0,1]; 1 "full"; 0 "umbra")
+  pen     calculateSunVizFraction across the penumbra at 1.1 .. 10 Earth radii: value against the
+          disc-overlap integral (planar model of the documented reference .. exact spherical caps),
+          monotone across the band
+
+A legal input on which the real code raises is a VIOLATION ("<predicate>-raises:<Exception>"),
+never a driver crash: every call into the real predicates goes through guard().
 
 and checks the spec's relations (symmetry, rotation invariance, agreement with the spec's
 formulas evaluated in double precision outside a tolerance band) on seeded off-lattice inputs.
@@ -34,11 +43,31 @@ from .. import tlc
 from ..core import Ctx
 
 LEVEL = "model_checking"
-KINDS = ("rect", "conic", "azmask", "elmask", "los", "limb", "sun")
+KINDS = ("rect", "conic", "azmask", "elmask", "azmaskcfg", "elmaskcfg", "los", "limb", "sun", "pen")
+OVERLAP_TOL = 1e-6   # visible-Sun fraction against the disc-overlap interval
 AU_KM = 149597870.7
 SUN_DISTANCES = (AU_KM, 0.9833 * AU_KM, 1.0167 * AU_KM)
 BAND = 1e-9          # relative / radian band inside which off-lattice inputs are undecided
 VEL = np.array([0.3, -0.2, 0.1])   # SEZ velocity part of the 6x1 slant-range vectors (km/s)
+
+
+class Raised:
+    """Marker: the real code raised on this input (already reported as a violation)."""
+
+
+RAISED = Raised()
+
+
+def guard(ctx: Ctx, name: str, where: str, replay: dict, fn, *args):
+    """Call into the real code.  An exception on a legal input is a property violation, not a crash."""
+    try:
+        return fn(*args)
+    except tlc.MachineryError:
+        raise
+    except Exception as ex:  # noqa: BLE001
+        ctx.violation(f"{name}-raises:{type(ex).__name__}",
+                      f"{name} raised {type(ex).__name__}({str(ex)[:120]}) on a legal input: {where}", replay)
+        return RAISED
 
 
 # --------------------------------------------------------------------------------------
@@ -53,10 +82,13 @@ class Real:
         from resonaate.physics.bodies import Earth
         from resonaate.physics.sensor_utils import (calculateSunVizFraction,
                                                     checkSpaceSensorEarthLimbObscuration, lineOfSight)
-        from resonaate.scenario.config.sensor_config import (ConicFieldOfViewConfig,
-                                                             RectangularFieldOfViewConfig)
+        from resonaate.physics.bodies.third_body import Sun
+        from resonaate.scenario.config.sensor_config import (AdvRadarConfig, ConicFieldOfViewConfig, OpticalConfig,
+                                                             RadarConfig, RectangularFieldOfViewConfig)
+        from resonaate.sensors import sensorFactory
         from resonaate.sensors.field_of_view import ConicFoV, FieldOfView, RectangularFoV
         from resonaate.sensors.radar import Radar
+        from resonaate.sensors.sensor_base import Sensor
 
         self.Explanation, self.const, self.Earth = Explanation, const, Earth
         self.lineOfSight = lineOfSight
@@ -66,6 +98,10 @@ class Real:
         self.RectCfg, self.ConicCfg = RectangularFieldOfViewConfig, ConicFieldOfViewConfig
         self.RE = float(Earth.radius)
         self.RL = float(Earth.radius + Earth.atmosphere)
+        self.RS = float(Sun.radius)
+        self.sensorFactory, self.Sensor = sensorFactory, Sensor
+        self.cfg_types = (("radar", RadarConfig), ("adv_radar", AdvRadarConfig), ("optical", OpticalConfig))
+        self._cfg_sensors = {}
         self._fov = {}
         self._dir = {}
         # a real radar with every other constraint wide open: no range limits, enormous power,
@@ -98,6 +134,37 @@ class Real:
             else:
                 self._fov[key] = self.ConicFoV(full_deg * self.const.DEG2RAD)
         return self._fov[key]
+
+    def cfg_sensor(self, ctx: Ctx, shape):
+        """The sensor a user gets who writes azimuth_range / elevation_range (degrees, as given) in a sensor
+        configuration; the sensor type rotates with the mask.  Returns (type name, sensor, isVisible callable)."""
+        key = tuple(shape)
+        if key not in self._cfg_sensors:
+            azlo, azhi, ello, elhi = shape
+            tname, cls = self.cfg_types[(int(azlo) // 5 + int(azhi) // 5 + int(ello) + int(elhi)) % 3]
+            common = dict(azimuth_range=[float(azlo), float(azhi)], elevation_range=[float(ello), float(elhi)],
+                          covariance=np.eye(2 if tname == "optical" else 4).tolist(), aperture_diameter=100.0, efficiency=1.0,
+                          slew_rate=10.0, field_of_view={"fov_shape": "rectangular", "azimuth_angle": 1.0, "elevation_angle": 1.0})
+            if tname != "optical":
+                common.update(tx_power=1e12, tx_frequency=1e9, min_detectable_power=1e-30)
+
+            def build():
+                sensor = self.sensorFactory(cls(**common))
+                sensor.host = self.host
+                return sensor
+
+            sensor = guard(ctx, "sensor-config", f"{tname} with azimuth_range [{azlo}, {azhi}] elevation_range [{ello}, {elhi}] deg",
+                           {"config": {k: v for k, v in common.items() if k != "covariance"}, "type": tname}, build)
+            if sensor is RAISED:
+                call = None
+            elif tname == "optical":
+                # the optical lighting / magnitude constraints cannot be left open: ask the mask logic the
+                # optical sensor inherits (Sensor.isVisible) on the sensor built from the configuration
+                call = lambda *a, _s=sensor: self.Sensor.isVisible(_s, *a)   # noqa: E731
+            else:
+                call = sensor.isVisible
+            self._cfg_sensors[key] = (tname, sensor, call)
+        return self._cfg_sensors[key]
 
     def set_mask(self, azlo, azhi, ello, elhi):
         m = (azlo, azhi, ello, elhi)
@@ -148,6 +215,10 @@ class Replayer:
         self.reason_mismatch = 0
         self.sun_classes = {"full": 0, "umbra": 0, "range": 0}
         self.sun_partial = 0
+        self.sun_partial_expected = 0   # by the oracle, never by the output under test
+        self.pen = {}            # (shape, r10, sun distance) -> {k: fraction}
+        self.pen_gap = 0.0       # largest planar-vs-spherical model gap seen (reported)
+        self.cfg_types_used = {}
         self.branches = {}
         self.sample = {}
 
@@ -170,9 +241,13 @@ class Replayer:
                 self.sample[kind] = (h, row)
 
     # ---- rectangular field of view
-    def _rect_call(self, w, b, t):
-        fov = self.R.rect_fov(w[0], w[1])
-        return bool(fov.inFieldOfView(sez_state(b[0], b[1], 1000.0), sez_state(t[0], t[1], 35786.0)))
+    def _rect_call(self, w, b, t, rp):
+        where = f"RectangularFoV {w[0]}x{w[1]} deg, boresight az/el {b}, target {t}"
+        fov = guard(self.ctx, "fov-config", where, rp, self.R.rect_fov, w[0], w[1])
+        if fov is RAISED:
+            return RAISED
+        got = guard(self.ctx, "rectfov", where, rp, fov.inFieldOfView, sez_state(b[0], b[1], 1000.0), sez_state(t[0], t[1], 35786.0))
+        return got if got is RAISED else bool(got)
 
     @staticmethod
     def _straddles(b, t):
@@ -185,7 +260,9 @@ class Replayer:
         if margin == 0:
             self.undecided["rect"] += 1
             return
-        got = self._rect_call(w, b, t)
+        got = self._rect_call(w, b, t, {"row": row, "rotated_by": 0})
+        if got is RAISED:
+            return
         if got != exp:
             self._rect_violation(w, b, t, b, t, exp, got, margin, why, 0)
         # RectRotationInvariant: the same answer after rotating both directions about the vertical
@@ -195,8 +272,8 @@ class Replayer:
                     continue
                 b2, t2 = [(b[0] + r) % 360, b[1]], [(t[0] + r) % 360, t[1]]
                 self.twins += 1
-                got2 = self._rect_call(w, b2, t2)
-                if got2 != exp:
+                got2 = self._rect_call(w, b2, t2, {"row": row, "rotated_by": r})
+                if got2 is not RAISED and got2 != exp:
                     self._rect_violation(w, b2, t2, b, t, exp, got2, margin, why, r)
 
     def _rect_violation(self, w, b, t, b0, t0, exp, got, margin, why, r):
@@ -215,14 +292,21 @@ class Replayer:
         _, c, b, t, exp, margin, why = row
         cs, p, q = c
         half = math.acos(cs * math.sqrt(p / q))
-        fov = self.R.conic_fov(2.0 * math.degrees(half))
+        where = f"ConicFoV half angle {math.degrees(half):.3f} deg, SEZ directions {b}, {t}"
+        fov = guard(self.ctx, "fov-config", where, {"row": row}, self.R.conic_fov, 2.0 * math.degrees(half))
         nb, nt = math.sqrt(b[0] ** 2 + b[1] ** 2 + b[2] ** 2), math.sqrt(t[0] ** 2 + t[1] ** 2 + t[2] ** 2)
         self._case(row, nontrivial=True)
         if margin == 0:
             self.undecided["conic"] += 1
             return
+        if fov is RAISED:
+            return
         b3, t3 = 1000.0 / nb * np.array(b, dtype=float), 777.0 * np.array(t, dtype=float)
-        got = bool(fov.inFieldOfView(np.concatenate([b3, VEL]), np.concatenate([t3, -VEL])))
+        got = guard(self.ctx, "conicfov", where, {"row": row, "rotated_by": 0}, fov.inFieldOfView,
+                    np.concatenate([b3, VEL]), np.concatenate([t3, -VEL]))
+        if got is RAISED:
+            return
+        got = bool(got)
         if got != exp:
             self.ctx.violation("conicfov-mismatch", f"ConicFoV half angle {math.degrees(half):.3f} deg, SEZ directions {b}, {t}: "
                                f"expected {exp}, got {got}", {"row": row, "rotated_by": 0})
@@ -231,44 +315,67 @@ class Replayer:
         if (idx % 4 == 0) or self.ctx.tier != "quick":
             ang = ((idx * 0.6180339887498949) % 1.0) * 2 * math.pi
             self.twins += 1
-            got2 = bool(fov.inFieldOfView(np.concatenate([rot_z(b3, ang), VEL]), np.concatenate([rot_z(t3, ang), -VEL])))
-            if got2 != exp:
+            got2 = guard(self.ctx, "conicfov", where + f" rotated by {ang:.6f} rad", {"row": row, "rotated_by": ang}, fov.inFieldOfView,
+                         np.concatenate([rot_z(b3, ang), VEL]), np.concatenate([rot_z(t3, ang), -VEL]))
+            if got2 is not RAISED and bool(got2) != exp:
                 self.ctx.violation("conicfov-rotation-variant", f"ConicFoV {b}, {t} rotated about the vertical by {ang:.6f} rad: "
                                    f"expected {exp}, got {got2}", {"row": row, "rotated_by": ang})
 
     # ---- masks of Sensor.isVisible
-    def _mask_call(self, shape, az, el):
+    def _mask_call(self, row, shape, az, el, via_config):
+        """(visible, reason) of the real isVisible, or RAISED; the sensor gets its masks directly or from a configuration."""
         R = self.R
-        R.set_mask(*shape)
+        where = f"{'configured ' if via_config else ''}az range [{shape[0]}, {shape[1]}] el range [{shape[2]}, {shape[3]}] deg, target az {az} el {el}"
+        if via_config:
+            tname, sensor, call = R.cfg_sensor(self.ctx, shape)
+            self.cfg_types_used[tname] = self.cfg_types_used.get(tname, 0) + 1
+            if sensor is RAISED:
+                return RAISED
+            where = f"{tname} " + where
+        else:
+            if guard(self.ctx, "sensor-mask-setter", where, {"row": row}, R.set_mask, *shape) is RAISED:
+                return RAISED
+            call = R.sensor.isVisible
         slant = sez_state(az, el, 100.0)
         # host on the +x axis: zenith = +x, east = +y, south = -z
         tgt = R.host.eci_state + np.array([slant[2], slant[1], -slant[0], 0.0, 0.0, 0.0])
-        vis, reason = R.sensor.isVisible(tgt, 10.0, 0.2, slant)
-        mask_reason_guard(self.ctx, R, reason, tgt, f"mask {shape} az {az} el {el}")
+        res = guard(self.ctx, "isvisible", where, {"row": row}, call, tgt, 10.0, 0.2, slant)
+        if res is RAISED:
+            return RAISED
+        vis, reason = res
+        mask_reason_guard(self.ctx, R, reason, tgt, where)
         return bool(vis), reason
 
     def do_azmask(self, row):
-        _, shape, (az,), (el,), exp, margin, why = row
+        kind, shape, (az,), (el,), exp, margin, why = row
+        via_config = kind.endswith("cfg")
         wrapping = shape[0] > shape[1]
-        self._case(row, nontrivial=wrapping or abs(margin) <= 10 or shape[0] == shape[1])
+        self._case(row, nontrivial=wrapping or abs(margin) <= 10 or shape[0] == shape[1] or shape[2] > shape[3])
         if margin == 0:
-            self.undecided[row[0]] += 1
+            self.undecided[kind] += 1
             return
-        got, reason = self._mask_call(shape, az, el)
+        res = self._mask_call(row, shape, az, el, via_config)
+        if res is RAISED:
+            return
+        got, reason = res
         if reason not in self.R.mask_reasons:
             return
         if why in ("visible", "azimuth_mask", "elevation_mask") and reason.name.lower() != why:
             self.reason_mismatch += 1
         if got != exp:
-            if why == "elevation_mask" or (exp and reason == self.R.Explanation.ELEVATION_MASK):
-                sig = "elmask-mismatch"
+            el_fault = why == "elevation_mask" or (exp and reason == self.R.Explanation.ELEVATION_MASK)
+            if via_config:
+                sig = "el-mask-config-path" if el_fault else "az-mask-config-path"
+                what = (f"sensor built from a configuration with azimuth_range [{shape[0]}, {shape[1]}] elevation_range [{shape[2]}, {shape[3]}] deg "
+                        f"({self.R.cfg_sensor(self.ctx, shape)[0]}): target az {az} el {el} is {'inside' if exp else 'outside'} the configured ranges "
+                        f"({why}, margin {margin} deg) but isVisible says {got} ({reason.value})")
             else:
-                sig = "azmask-wrap-mismatch" if wrapping else "azmask-nowrap-mismatch"
-            self.ctx.violation(sig, f"Sensor.isVisible with az mask [{shape[0]}, {shape[1]}] el mask [{shape[2]}, {shape[3]}] deg, "
-                               f"target az {az} el {el}: expected {exp} ({why}, margin {margin} deg), got {got} ({reason.value})",
-                               {"row": row})
+                sig = "elmask-mismatch" if el_fault else ("azmask-wrap-mismatch" if wrapping else "azmask-nowrap-mismatch")
+                what = (f"Sensor.isVisible with az mask [{shape[0]}, {shape[1]}] el mask [{shape[2]}, {shape[3]}] deg, "
+                        f"target az {az} el {el}: expected {exp} ({why}, margin {margin} deg), got {got} ({reason.value})")
+            self.ctx.violation(sig, what, {"row": row})
 
-    do_elmask = do_azmask
+    do_elmask = do_azmaskcfg = do_elmaskcfg = do_azmask
 
     # ---- line of sight
     def do_los(self, row):
@@ -279,7 +386,12 @@ class Replayer:
             self.undecided["los"] += 1
             return
         a3, b3 = unit * np.array(a, dtype=float), unit * np.array(b, dtype=float)
-        ab, ba = bool(self.R.lineOfSight(a3, b3)), bool(self.R.lineOfSight(b3, a3))
+        where = f"positions {a}, {b} (Earth radii / {rad})"
+        ab = guard(self.ctx, "los", where, {"row": row}, self.R.lineOfSight, a3, b3)
+        ba = guard(self.ctx, "los", where + " reversed", {"row": row}, self.R.lineOfSight, b3, a3)
+        if ab is RAISED or ba is RAISED:
+            return
+        ab, ba = bool(ab), bool(ba)
         if ab != ba:
             self.ctx.violation("los-asymmetric", f"lineOfSight({a}, {b}) = {ab} but lineOfSight({b}, {a}) = {ba} (Earth radii / {rad})",
                                {"row": row})
@@ -295,7 +407,11 @@ class Replayer:
         if margin == 0:
             self.undecided["limb"] += 1
             return
-        got = bool(self.R.limb(*limb_inputs(unit * np.array(s, dtype=float), unit * np.array(p, dtype=float))))
+        got = guard(self.ctx, "limb", f"sensor {s}, target {p} (limb radii / {rad})", {"row": row}, self.R.limb,
+                    *limb_inputs(unit * np.array(s, dtype=float), unit * np.array(p, dtype=float)))
+        if got is RAISED:
+            return
+        got = bool(got)
         if got != exp:
             self.ctx.violation("limb-mismatch", f"checkSpaceSensorEarthLimbObscuration: sensor {s}, target {p} (units of limb radius / {rad}): "
                                f"tangent-cone test says {exp}, code says {got}", {"row": row})
@@ -308,24 +424,134 @@ class Replayer:
         self.sun_classes[why] += 1
         t3 = unit * np.array(t, dtype=float)
         uh = np.array(u, dtype=float) / math.sqrt(u[0] ** 2 + u[1] ** 2 + u[2] ** 2)
+        where = f"target {t} (Earth radii / {rad}), Sun direction {u}"
         for dist in SUN_DISTANCES:
-            frac = float(self.R.sunfrac(t3, dist * uh))
-            sun_check(self.ctx, frac, why, {"row": row, "sun_distance_km": dist}, f"target {t} (Earth radii / {rad}), Sun direction {u}",
+            rp = {"row": row, "sun_distance_km": dist}
+            frac = sun_call(self.ctx, self.R, t3, dist * uh, where, rp)
+            if frac is RAISED:
+                continue
+            sun_check(self.ctx, frac, why, rp, where,
                       on_axis=(t[1] * u[2] == t[2] * u[1] and t[2] * u[0] == t[0] * u[2] and t[0] * u[1] == t[1] * u[0]))
+            if sun_overlap_check(self.ctx, self.R, frac, t3, dist * uh, rp, where) >= 0:
+                self.sun_partial_expected += 1
             if 0.0 < frac < 1.0:
                 self.sun_partial += 1
 
+    # ---- penumbra sweep
+    def do_pen(self, row):
+        _, shape, (r10,), (k,), exp, margin, why = row
+        K = shape[0]
+        self._case(row, nontrivial=True)
+        R = self.R
+        u, w = np.array(shape[1:4], dtype=float), np.array(shape[4:7], dtype=float)
+        u, w = u / np.linalg.norm(u), w / np.linalg.norm(w)
+        r = r10 / 10.0 * R.RE
+        for dist in SUN_DISTANCES[:1] if self.ctx.quick else SUN_DISTANCES:
+            a0, b0 = math.asin(R.RS / dist), math.asin(R.RE / r)
+            phi = (b0 - a0) + (k / K) * 2 * a0
+            t3 = r * (-math.cos(phi) * u + math.sin(phi) * w)
+            where = f"target at {r10 / 10} Earth radii, step {k}/{K} across the penumbra, frame {shape[1:4]}, {shape[4:7]}"
+            rp = {"row": row, "sun_distance_km": dist}
+            frac = sun_call(self.ctx, R, t3, dist * u, where, rp)
+            if frac is RAISED:
+                continue
+            if margin != 0:      # the band ends are placed to first order: one step beyond them the class is certain
+                sun_check(self.ctx, frac, {"umbra": "umbra", "lit": "full", "penumbra": "range"}[why], rp, where)
+            gap = sun_overlap_check(self.ctx, R, frac, t3, dist * u, rp, where)
+            if gap >= 0:
+                self.sun_partial_expected += 1
+                self.pen_gap = max(self.pen_gap, gap)
+            self.pen.setdefault((tuple(shape), r10, dist), {})[k] = frac
+            if 0.0 < frac < 1.0:
+                self.sun_partial += 1
+
+    def pen_monotone(self):
+        """The visible fraction grows (weakly) with the step across the band."""
+        for (shape, r10, dist), fr in sorted(self.pen.items()):
+            ks = sorted(fr)
+            for k0, k1 in zip(ks, ks[1:]):
+                if fr[k1] < fr[k0] - 1e-9:
+                    self.ctx.violation("sunviz-penumbra-not-monotone", f"visible-Sun fraction falls from {fr[k0]} (step {k0}) to {fr[k1]} (step {k1}) while the "
+                                       f"target moves out of the shadow at {r10 / 10} Earth radii", {"shape": list(shape), "r10": r10, "sun_distance_km": dist,
+                                                                                                  "fractions": {str(k): fr[k] for k in ks}})
+                    break
+
 
 def mask_reason_guard(ctx, real, reason, tgt, where):
-    """The mask harness keeps every other constraint open.  A LINE_OF_SIGHT answer for a target 100 km
-    from a host at 8 Earth radii is itself a line-of-sight violation; anything else is a harness fault."""
+    """The mask harness keeps every other constraint open (no range limits, 1e12 W, host at 8 Earth radii, target
+    100 km away).  A LINE_OF_SIGHT answer there is itself a line-of-sight violation; any other foreign reason means
+    the sensor rejects a target that only the masks could reject: reported, never a driver crash."""
     if reason in real.mask_reasons:
         return
     if reason == real.Explanation.LINE_OF_SIGHT:
         ctx.violation("los-mismatch-at-sensor", "Sensor.isVisible reports no line of sight between a host at 8 Earth radii and a "
                       f"target 100 km away ({where})", {"host": real.host.eci_state.tolist(), "target": tgt.tolist()})
         return
-    raise tlc.MachineryError(f"mask harness is not isolated: isVisible answered {reason} ({where})")
+    name = getattr(reason, "name", str(reason))
+    ctx.violation(f"isvisible-foreign-reason:{name}", f"Sensor.isVisible rejects a target 100 km from a sensor without range limits for the reason "
+                  f"{getattr(reason, 'value', reason)!r}, which no mask can produce ({where})",
+                  {"host": real.host.eci_state.tolist(), "target": tgt.tolist()})
+
+
+def sun_call(ctx, real, t3, sun3, where, replay):
+    frac = guard(ctx, "sunviz", where, replay, real.sunfrac, t3, sun3)
+    if frac is RAISED:
+        return RAISED
+    try:
+        return float(frac)
+    except (TypeError, ValueError):
+        ctx.violation("sunviz-not-a-number", f"calculateSunVizFraction returned {frac!r}: {where}", replay)
+        return RAISED
+
+
+def apparent_discs(real, t3, sun3):
+    """Apparent radii of Sun (a) and Earth (b) and their separation (c) seen from the target, computed
+    independently of the code under test (separation through atan2 of cross and dot products)."""
+    d = sun3 - t3
+    a = math.asin(min(1.0, real.RS / float(np.linalg.norm(d))))
+    b = math.asin(min(1.0, real.RE / float(np.linalg.norm(t3))))
+    c = math.atan2(float(np.linalg.norm(np.cross(-t3, d))), float(-t3 @ d))
+    return a, b, c
+
+
+def _acos(x):
+    return math.acos(max(-1.0, min(1.0, x)))
+
+
+def visible_planar(a, b, c):
+    """1 - (overlap of two flat discs of radii a, b at distance c) / (pi a^2): the model of the documented reference."""
+    if c >= a + b:
+        return 1.0
+    if c <= abs(b - a):
+        return 0.0 if b >= a else 1.0 - (b / a) ** 2
+    lens = (a * a * _acos((c * c + a * a - b * b) / (2 * c * a)) + b * b * _acos((c * c + b * b - a * a) / (2 * c * b))
+            - 0.5 * math.sqrt(max(0.0, (-c + a + b) * (c + a - b) * (c - a + b) * (c + a + b))))
+    return 1.0 - lens / (math.pi * a * a)
+
+
+def visible_spherical(a, b, c):
+    """The same with the exact area of the intersection of two spherical caps (Tovchigrechko & Vakser 2001)."""
+    if c >= a + b:
+        return 1.0
+    cap = 2 * math.pi * (1 - math.cos(a))
+    if c <= abs(b - a):
+        return 0.0 if b >= a else 1.0 - (1 - math.cos(b)) / (1 - math.cos(a))
+    ca, cb, cc, sa, sb, sc = math.cos(a), math.cos(b), math.cos(c), math.sin(a), math.sin(b), math.sin(c)
+    area = 2 * (math.pi - _acos((cc - ca * cb) / (sa * sb)) - _acos((cb - cc * ca) / (sc * sa)) * ca - _acos((ca - cc * cb) / (sc * sb)) * cb)
+    return 1.0 - area / cap
+
+
+def sun_overlap_check(ctx, real, frac, t3, sun3, replay, where):
+    """The fraction must lie between the flat-disc model of the documented reference and the exact spherical-cap
+    overlap (both computed from independently derived apparent radii and separation).  Returns the model gap
+    when the oracle says the eclipse is partial, else -1."""
+    a, b, c = apparent_discs(real, t3, sun3)
+    lo, hi = sorted((visible_planar(a, b, c), visible_spherical(a, b, c)))
+    if not (lo - OVERLAP_TOL <= frac <= hi + OVERLAP_TOL):   # also nan
+        ctx.violation("sunviz-disc-overlap", f"calculateSunVizFraction = {frac} but the visible part of the Sun's disc is {lo:.9f}"
+                      + (f" .. {hi:.9f}" if hi - lo > 1e-9 else "") + f" (apparent radii {a:.6f}, {b:.6f} rad, separation {c:.6f} rad): {where}",
+                      dict(replay, a=a, b=b, c=c, expected=[lo, hi], got=frac))
+    return (hi - lo) if 0.0 < lo and hi < 1.0 else -1.0    # -1: not a partial eclipse
 
 
 def sun_check(ctx, frac, cls, replay, where, on_axis=False):
@@ -404,8 +630,12 @@ def relations(ctx: Ctx, real: Real, rng: random.Random, n: int):
             continue
         exp = branch != "within" or m >= 0
         Q = rand_rotation(rng)
-        got = [bool(real.lineOfSight(a, b)), bool(real.lineOfSight(b, a)), bool(real.lineOfSight(Q @ a, Q @ b))]
-        rp = {"a": a.tolist(), "b": b.tolist(), "Q": Q.tolist(), "expected": exp, "got": got, "rel_margin": m}
+        rp = {"a": a.tolist(), "b": b.tolist(), "Q": Q.tolist(), "expected": exp, "rel_margin": m}
+        got = [guard(ctx, "los", "off-lattice positions", rp, real.lineOfSight, x, y) for x, y in ((a, b), (b, a), (Q @ a, Q @ b))]
+        if any(g is RAISED for g in got):
+            continue
+        got = [bool(g) for g in got]
+        rp["got"] = got
         if got[0] != got[1]:
             ctx.violation("los-asymmetric", f"lineOfSight(a, b) = {got[0]} but lineOfSight(b, a) = {got[1]} (off-lattice)", rp)
         elif got[0] != got[2]:
@@ -427,10 +657,16 @@ def relations(ctx: Ctx, real: Real, rng: random.Random, n: int):
             skipped += 1
             continue
         exp = margin >= 0
-        fov = real.rect_fov(w_az, w_el)
+        fov = guard(ctx, "fov-config", f"RectangularFoV {w_az}x{w_el} deg", {"w": [w_az, w_el]}, real.rect_fov, w_az, w_el)
         for rr in (0.0, r):
             b2, t2 = (baz + rr) % 360, (taz + rr) % 360
-            got = bool(fov.inFieldOfView(sez_state(b2, bel, 1200.0), sez_state(t2, tel, 800.0)))
+            if fov is RAISED:
+                break
+            got = guard(ctx, "rectfov", f"RectangularFoV {w_az}x{w_el} deg (off-lattice)", {"w": [w_az, w_el], "b": [b2, bel], "t": [t2, tel]},
+                        fov.inFieldOfView, sez_state(b2, bel, 1200.0), sez_state(t2, tel, 800.0))
+            if got is RAISED:
+                continue
+            got = bool(got)
             if got != exp:
                 straddle = abs(b2 - t2) > 180
                 sig = "rectfov-seam-not-wrapped" if (straddle and exp and not got) else "rectfov-rotation-variant"
@@ -451,10 +687,17 @@ def relations(ctx: Ctx, real: Real, rng: random.Random, n: int):
             skipped += 1
             continue
         exp = ang <= half
-        fov = real.conic_fov(2 * math.degrees(half))
+        rpc = {"b": b.tolist(), "t": t.tolist(), "half_rad": half}
+        fov = guard(ctx, "fov-config", f"ConicFoV half angle {math.degrees(half)} deg", rpc, real.conic_fov, 2 * math.degrees(half))
         r = rng.uniform(0, 2 * math.pi)
         for rr in (0.0, r):
-            got = bool(fov.inFieldOfView(np.concatenate([900.0 * rot_z(b, rr), VEL]), np.concatenate([40000.0 * rot_z(t, rr), VEL])))
+            if fov is RAISED:
+                break
+            got = guard(ctx, "conicfov", f"ConicFoV half angle {math.degrees(half)} deg (off-lattice)", dict(rpc, rotated_by=rr), fov.inFieldOfView,
+                        np.concatenate([900.0 * rot_z(b, rr), VEL]), np.concatenate([40000.0 * rot_z(t, rr), VEL]))
+            if got is RAISED:
+                continue
+            got = bool(got)
             if got != exp:
                 ctx.violation("conicfov-mismatch" if rr == 0.0 else "conicfov-rotation-variant",
                               f"ConicFoV half angle {math.degrees(half)} deg (off-lattice): offset {math.degrees(ang):.6f} deg, expected {exp}, got {got}",
@@ -474,17 +717,34 @@ def relations(ctx: Ctx, real: Real, rng: random.Random, n: int):
                 skipped += 1
                 continue
             exp = off <= span
-            real.set_mask(lo2, hi2, -90.0, 90.0)
             slant = sez_state(az2, 20.0, 100.0)
             tgt = real.host.eci_state + np.array([slant[2], slant[1], -slant[0], 0, 0, 0])
-            got, reason = real.sensor.isVisible(tgt, 10.0, 0.2, slant)
-            mask_reason_guard(ctx, real, reason, tgt, "off-lattice mask")
-            if reason not in real.mask_reasons:
-                continue
-            if bool(got) != exp:
-                ctx.violation("azmask-wrap-mismatch" if lo2 > hi2 else "azmask-nowrap-mismatch",
-                              f"Sensor.isVisible az mask [{lo2:.5f}, {hi2:.5f}] target az {az2:.5f} (off-lattice): expected {exp}, got {bool(got)}",
-                              {"lo": lo2, "hi": hi2, "az": az2, "rotated_by": rr})
+            rpm = {"lo": lo2, "hi": hi2, "az": az2, "rotated_by": rr}
+            # every 8th mask is also stated in a configuration (elevation range given in either order)
+            for via_config in ((False, True) if i % 8 == 0 else (False,)):
+                if via_config:
+                    shape = (lo2, hi2, 85.0, -60.0) if i % 16 else (lo2, hi2, -60.0, 85.0)
+                    tname, sensor, call = real.cfg_sensor(ctx, shape)
+                    real._cfg_sensors.pop(tuple(shape), None)   # one-off masks: do not keep them
+                    if sensor is RAISED:
+                        continue
+                elif guard(ctx, "sensor-mask-setter", "off-lattice mask", rpm, real.set_mask, lo2, hi2, -89.0, 90.0) is RAISED:
+                    continue
+                else:
+                    call = real.sensor.isVisible
+                res = guard(ctx, "isvisible", "off-lattice mask", rpm, call, tgt, 10.0, 0.2, slant)
+                if res is RAISED:
+                    continue
+                got, reason = res
+                mask_reason_guard(ctx, real, reason, tgt, "off-lattice mask")
+                if reason not in real.mask_reasons:
+                    continue
+                if bool(got) != exp:
+                    el_fault = reason == real.Explanation.ELEVATION_MASK   # the elevation (20 deg) is inside every range used here
+                    sig = (("el-mask-config-path" if el_fault else "az-mask-config-path") if via_config
+                           else "elmask-mismatch" if el_fault else ("azmask-wrap-mismatch" if lo2 > hi2 else "azmask-nowrap-mismatch"))
+                    ctx.violation(sig, f"{'configured ' if via_config else ''}az mask [{lo2:.5f}, {hi2:.5f}] target az {az2:.5f} (off-lattice): expected {exp}, "
+                                  f"isVisible says {bool(got)} ({reason.value})", dict(rpm, via_config=via_config))
     # ---- limb: tangent cone; Sun: range and limits
     for i in range(n):
         s = rand_unit(rng) * RL * rng.uniform(1.01, 10.0)
@@ -498,17 +758,32 @@ def relations(ctx: Ctx, real: Real, rng: random.Random, n: int):
             skipped += 1
             continue
         exp = theta < alpha
-        got = bool(real.limb(*limb_inputs(s, s + rho)))
-        if got != exp:
+        got = guard(ctx, "limb", "off-lattice sensor / target", {"s": s.tolist(), "rho": rho.tolist()}, real.limb, *limb_inputs(s, s + rho))
+        if got is not RAISED and bool(got) != exp:
             ctx.violation("limb-mismatch", f"checkSpaceSensorEarthLimbObscuration (off-lattice): angle from nadir {theta:.6f}, "
                           f"limb half angle {alpha:.6f}: expected {exp}, got {got}", {"s": s.tolist(), "rho": rho.tolist()})
         t = rand_unit(rng) * RE * rng.uniform(1.01, 10.0)
         u = rand_unit(rng)
         tu, nt = float(t @ u), float(t @ t)
         cls = "full" if (tu > 0 and 1000 * tu * tu >= nt) else "umbra" if (tu < 0 and 100 * (nt - tu * tu) <= 81 * RE * RE and nt <= 100 * RE * RE) else "range"
-        frac = float(real.sunfrac(t, AU_KM * u))
         ctx.case(("rel-sun", i), nontrivial=cls != "range")
-        sun_check(ctx, frac, cls, {"t": t.tolist(), "u": u.tolist()}, "off-lattice target")
+        rps = {"t": t.tolist(), "u": u.tolist()}
+        frac = sun_call(ctx, real, t, AU_KM * u, "off-lattice target", rps)
+        if frac is not RAISED:
+            sun_check(ctx, frac, cls, rps, "off-lattice target")
+            sun_overlap_check(ctx, real, frac, t, AU_KM * u, rps, "off-lattice target")
+        # a target placed in / beside the penumbra at a random distance up to 10 Earth radii
+        w = np.cross(u, rand_unit(rng))
+        w /= np.linalg.norm(w)
+        r, dist, sx = RE * rng.uniform(1.02, 10.0), AU_KM * rng.uniform(0.983, 1.017), rng.uniform(-0.3, 1.3)
+        phi = (math.asin(RE / r) - math.asin(real.RS / dist)) + sx * 2 * math.asin(real.RS / dist)
+        t = r * (-math.cos(phi) * u + math.sin(phi) * w)
+        ctx.case(("rel-pen", i))
+        rps = {"t": t.tolist(), "sun": (dist * u).tolist()}
+        frac = sun_call(ctx, real, t, dist * u, "off-lattice target near the penumbra", rps)
+        if frac is not RAISED:
+            sun_check(ctx, frac, "range", rps, "off-lattice target near the penumbra")
+            sun_overlap_check(ctx, real, frac, t, dist * u, rps, f"off-lattice target at {r / RE:.3f} Earth radii, {sx:.3f} across the penumbra")
     return skipped
 
 
@@ -547,7 +822,9 @@ def run(ctx: Ctx):
     ctx.rule = ("every 'done' state of Visibility.tla is one case, distinct by (kind, shape, from, to): rect = az/el grid (1 deg within "
                 "+-3 deg of the north seam and of 180, coarse elsewhere; elevations to +-90) x FoV sizes, plus twins rotated so that "
                 "boresight/target sit on the seam; conic = all pairs of integer SEZ directions x cones with rational cos^2; azmask = all "
-                "[lo,hi] on a 10 (quick) / 5 (thorough) degree grid incl. wrapping and lo=hi x azimuths; elmask; los = all unordered pairs "
+                "[lo,hi] on a 10 (quick) / 5 (thorough) degree grid incl. wrapping and lo=hi x azimuths; elmask (incl. a decreasing range); "
+                "azmaskcfg / elmaskcfg = the same ranges stated in RadarConfig / AdvRadarConfig / OpticalConfig -> sensorFactory x 8-12 azimuths; "
+                "pen = targets at 1.1-10 Earth radii stepped across the penumbra in three frames; los = all unordered pairs "
                 "of lattice points of the cube of side 7 Earth radii on/above the sphere, both argument orders; limb; sun.  Non-trivial: "
                 "rect = seam-straddling or inside or within 6 deg of an edge; azmask = wrapping, degenerate or within 10 deg of an end; "
                 "los = closest point interior to the segment or margin <= 2; all others counted.  rel-* keys: seeded off-lattice "
@@ -562,7 +839,14 @@ def run(ctx: Ctx):
         "of the shadow axis behind the Earth (conservative bands, exact on the lattice); elsewhere only 0 <= f <= 1 (tolerance 1e-9)",
         f"off-lattice relation checks skip inputs within {BAND:g} (relative) / 1e-7 deg-rad of an edge; the expected value there is the "
         "spec's formula evaluated in double precision (a relation, not an exact decision)",
-        "FoV sizes and masks inside the configurable domain are built through FieldOfView.fromConfig / the Sensor mask setters",
+        "FoV sizes inside the configurable domain are built through FieldOfView.fromConfig; masks both through the Sensor mask setters "
+        "(azmask, elmask: taken as given, an explicit decreasing elevation mask is empty) and through the public sensor configuration "
+        "(azmaskcfg, elmaskcfg: azimuth range ordered, elevation range an unordered pair, as documented); for OpticalConfig the built sensor is "
+        "asked through the inherited Sensor.isVisible (its lighting constraints cannot be left open)",
+        f"visible-Sun fraction in the penumbra: must lie between the flat-disc overlap of the documented reference (Montenbruck 3.4.2) and the exact "
+        f"spherical-cap overlap, both from independently computed apparent radii/separation, +-{OVERLAP_TOL:g} (the two models differ by up to 2.1e-4 "
+        "at 1.1 Earth radii, 2e-6 at 10): a relation evaluated in double precision, not an exact decision; monotone across the band",
+        "a legal input on which a real predicate (or a legal configuration) raises is reported as '<name>-raises:<Exception>'",
     ]
     rp = Replayer(ctx, real)
     import time
@@ -575,7 +859,7 @@ def run(ctx: Ctx):
             rp.row(row)
         del res
     else:
-        groups = [("rect",), ("conic",), ("azmask", "elmask"), ("los",), ("limb", "sun")]
+        groups = [("rect",), ("conic",), ("azmask", "elmask", "azmaskcfg", "elmaskcfg"), ("los",), ("limb", "sun", "pen")]
         with ThreadPoolExecutor(1) as ex:   # TLC of the next group runs while this one is replayed
             fut = ex.submit(_run_tlc, ctx, groups[0], ctx.cpus)
             for gi, g in enumerate(groups):
@@ -589,12 +873,15 @@ def run(ctx: Ctx):
     for k in KINDS:
         if rp.n[k] == 0:
             raise tlc.MachineryError(f"Visibility.tla emitted no '{k}' case")
-        if k != "sun" and rp.undecided[k] >= rp.n[k]:
+        if k not in ("sun", "pen") and rp.undecided[k] >= rp.n[k]:
             raise tlc.MachineryError(f"every '{k}' case is undecided")
     if min(rp.sun_classes.values()) == 0:
         raise tlc.MachineryError(f"Sun classes not all exercised: {rp.sun_classes}")
+    rp.pen_monotone()
+    if rp.sun_partial_expected < 50:
+        raise tlc.MachineryError(f"the penumbra sweep poses only {rp.sun_partial_expected} partial eclipses (by the oracle)")
     ctx.traces_validated += sum(rp.n.values())
-    for k in ("rect", "azmask", "los", "conic", "limb", "sun"):
+    for k in ("rect", "azmaskcfg", "los", "conic", "limb", "pen"):
         r = rp.sample[k][1]
         ctx.samples.append({"kind": k, "shape": r[1], "from": r[2], "to": r[3], "expected": r[4], "margin": r[5], "why": r[6]})
     ctx.extra["tlc_plus_replay_wall_s"] = round(time.time() - t_start, 1)
@@ -602,8 +889,9 @@ def run(ctx: Ctx):
     # TLC's workers emit in a different order each run: make the reported example per signature deterministic
     ctx.violations.sort(key=lambda v: (v["signature"], "row" not in v["replay"], json.dumps(v["replay"], sort_keys=True, default=str)))
     ctx.extra.update(spec_cases_replayed=rp.n, spec_cases_by_branch_and_expected=dict(sorted(rp.branches.items())), undecided_margin_zero=rp.undecided, nontrivial_by_kind=rp.nontrivial,
-                     rotated_twins_replayed=rp.twins, sun_classes=rp.sun_classes, sun_partial_fractions_seen=rp.sun_partial,
-                     mask_reason_differs_from_spec_branch=rp.reason_mismatch, off_lattice_relation_inputs_skipped_near_edge=skipped)
+                     rotated_twins_replayed=rp.twins, sun_classes=rp.sun_classes, sun_partial_fractions_seen=rp.sun_partial, sun_partial_eclipses_posed=rp.sun_partial_expected,
+                     mask_reason_differs_from_spec_branch=rp.reason_mismatch, config_path_sensor_types=dict(sorted(rp.cfg_types_used.items())),
+                     penumbra_sweeps=len(rp.pen), penumbra_planar_vs_spherical_model_gap_max=rp.pen_gap, off_lattice_relation_inputs_skipped_near_edge=skipped)
 
 
 def replay(ctx: Ctx, rpf: dict):
